@@ -148,6 +148,9 @@ def gen_vmfields(man):
     for j in range(o, c - 4):
         if vm[j].text == "." and vm[j + 1].kind == "id" and vm[j + 2].text == "." and vm[j + 3].text == "clear" and vm[j + 4].text == "(":
             clears.append(vm[j + 1].text)
+    n_close = len(find_all_seq(vm, [".", "close_upvalues", "("], o, c))
+    w = find_seq(vm, ["while", "let"], o, c)
+    walks = w >= 0 and find_seq(vm, [".", "caller"], w, match_group(vm, body_after(vm, w)[0])) >= 0
     rst_fiber_only = find_seq(vm, ["self", ".", "fiber"], o, c) >= 0 and not self_assignments(vm, o + 1, c)
     # runtime_error: calls reset_stack, assigns no Vm field
     o, c = fn_body(vm, "runtime_error", impl)
@@ -195,7 +198,10 @@ def gen_vmfields(man):
              "Definition reset_field_calls_src : list string := %s." % coq_list(rs_fcalls), "",
              "(* fn reset_stack: fiber fields cleared; touches only the fiber *)",
              "Definition reset_stack_clears_src : list string := %s." % coq_list(clears),
-             "Definition reset_stack_fiber_only_src : bool := %s." % b(rst_fiber_only), "",
+             "Definition reset_stack_fiber_only_src : bool := %s." % b(rst_fiber_only),
+             "(* close_upvalues calls in reset_stack, and whether a loop follows the `caller` links *)",
+             "Definition reset_stack_close_upvalues_src : nat := %d." % n_close,
+             "Definition reset_stack_walks_callers_src : bool := %s." % b(walks), "",
              "(* fn runtime_error *)",
              "Definition runtime_error_calls_src : list string := %s." % coq_list(re_calls),
              "Definition runtime_error_assigns_src : list string := %s." % coq_list(re_assign), "",
